@@ -15,7 +15,7 @@ Definition h_trace_check (a : list sx) : sx :=
     | Some trs =>
       SL [sbool (forallb trace_ok trs);
           slist (fun tr => sopt (fun nk => SL [sN (fst nk); sN (snd nk)]) (first_bad 0 tr)) trs;
-          sbool (match merge [] (concat trs) with Some _ => true | None => false end)]
+          sbool (match merge [] (List.concat trs) with Some _ => true | None => false end)]
     | None => err "args"
     end
   | _ => err "arity"
@@ -53,7 +53,7 @@ Definition h_rebuild_run (a : list sx) : sx :=
       | Some ws =>
         let pool : pool (list N) N := fun i => match i with O => writes_prog ws 0%N | _ => reader name end in
         let c0 := init pool (built ws) in
-        SL [SL [sopt sN (result (run sched c0) 1); slist (fun k => sN (akind_code k)) (kinds list_eqb sched c0)]]
+        SL [SL [sopt sN (result (exec sched c0) 1); slist (fun k => sN (akind_code k)) (kinds list_eqb sched c0)]]
       | None => SL []
       end
     | _, _, _ => err "args"
